@@ -4,4 +4,5 @@ CONSTANTS
   D = 3
   Space <- Switches
 INVARIANT HistoryIndependent
+PROPERTY InventoriesAreKept
 CHECK_DEADLOCK FALSE
